@@ -12,3 +12,4 @@ pub mod r6;
 pub mod r7;
 pub mod r8f;
 pub mod r8p;
+pub mod r5r;
